@@ -24,6 +24,7 @@ class Recorder:
         self.linesearch = []      # (p, xi, fret, xnew, xinew, [(point, decorated cost)...])
         self.snaps = []           # snapshot after every op
         self.box_at_call = []     # (lo, hi) in force at each cost call (None when no strict ranges)
+        self.cost_args = []       # the extra positional arguments each cost call received (ExtraArgs)
         self.epoch = 0
 
 
@@ -48,13 +49,16 @@ class Problem:
         self.callback_fn = self.callback
 
     # --- the user's cost
-    def cost(self, x):
+    def cost(self, x, *args):
         xv = vec(x)
         kind, e = self.cost_expr
         if kind == "scalar":
             y = dsl.ev(e, xv)
+            for a in args:          # cost(x, *ExtraArgs): the extra arguments are shifts of the value
+                y = y + a
         else:
             y = np.array([dsl.ev(t, xv) for t in e])
+        self.rec.cost_args.append(tuple(float(a) for a in args))
         s = self.solver
         box = None
         if s is not None and s._useStrictRange:
@@ -319,6 +323,8 @@ def run_trace(spec, seed):
                             kw_step["constraints"] = prob.constraints_fn(val, prob.inplace) if val is not None else None
                         elif name == "penalty":
                             kw_step["penalty"] = prob.penalty_fn(val) if val is not None else None
+                        elif name == "extra":
+                            kw_step["ExtraArgs"] = tuple(val)      # Step(cost, ExtraArgs=...): the arguments in force from now on
                 ret = s.Step(prob.cost_fn, **kw_step)
             elif k == "solve":
                 ret = s.Solve(prob.cost_fn, **kw)
